@@ -64,6 +64,13 @@ Theorem C09_merges_on_plain_ok_partial :
 Proof. exact merges_on_plain_ok. Qed.
 Print Assumptions C09_merges_on_plain_ok_partial.
 
+(* a call that is refused leaves the table exactly as it was: every call, every table (for the range merge, which
+   works in several steps, this is the repaired behaviour; the correspondence compares the table after every refused
+   call of the hostile histories) *)
+Theorem C09_error_unchanged : forall t o, step t o = Err -> state_after t o = Some t.
+Proof. exact error_unchanged. Qed.
+Print Assumptions C09_error_unchanged.
+
 (* the full property is false of the faithful model once a table contains merges: the known findings *)
 (* the column edits address physical cells: after a horizontal merge the new column is not one column of the grid
    (in row 1 it stands behind the merged cell, one grid column further right than in rows 0 and 2) *)
